@@ -816,6 +816,14 @@ class Backend(ABC):
                 return []
             else:
                 raise e
+        except NotImplementedError as e:
+            if self.collect_errors:  # as for Sigma rules: an unsupported feature is a collected error
+                self.errors.append(
+                    (cast(Any, rule), SigmaConversionError(cast(Any, rule), rule.source, str(e)))
+                )
+                return []
+            else:
+                raise
 
     @abstractmethod
     def convert_correlation_event_count_rule(
